@@ -6,7 +6,7 @@ EXTENDS PartApi, TLC, Json
 CONSTANTS NT, L, Export
 VARIABLE c
 Calls == {[k |-> "set", p |-> p] : p \in {"all0", "alt", "newid", "last", "each"}}
-         \cup {[k |-> "update"], [k |-> "clean"], [k |-> "reload"], [k |-> "get"]}
+         \cup {[k |-> "update"], [k |-> "clean"], [k |-> "reload"], [k |-> "get"], [k |-> "default"]}
          \cup {[k |-> "delv", v |-> v] : v \in {1, 3}}
 Hists == UNION {[1..n -> Calls] : n \in 1..L}
 \* a history is worth running when it ends in a point the library is judged at
